@@ -93,7 +93,7 @@ def cases(prop, shard, nshards, seed, tier, want_models=False):
     # through the real reader: the text of a structure in which a few residues have a nearly superposed second copy
     # (a disorder deposited as two chains, as B/D of 488d.pdb) with equal or unequal occupancies - what the reader
     # keeps of the two copies is what gets annotated
-    for t in range(6 if tier == "quick" else 60):
+    for t in range(12 if tier == "quick" else 80):
         if mine():
             yield {"family": "through-reader-superposed-copies", "file": SMALL[t % len(SMALL)], "t": t, "ops": []}
     if mine():
@@ -498,8 +498,8 @@ def superposed_text(seed, prop, case):
     copy_chain = dict(zip(sorted(used), free))
     new_chain = "".join(copy_chain[c] for c in sorted(used))
     chosen = set(rng.sample(keys, max(1, min(len(keys), rng.choice([1, 2, 3, len(keys) // 4 + 1])))))
-    occ = rng.choice([(0.5, 0.5), (0.5, 0.5), (0.4, 0.6), (0.6, 0.4), (1.0, 1.0)])
-    step = rng.choice([0.05, 0.15, 0.25])
+    occ = rng.choice([(0.5, 0.5), (0.5, 0.5), (0.4, 0.6), (0.6, 0.4), (1.0, 1.0), (0.0, 1.0), (1.0, 0.0), (0.0, 0.6)])  # (0.00 is an ordinary occupancy: the flag of an unobserved copy)
+    step = rng.choice([0.05, 0.15, 0.25, 0.0, 0.0])  # 0.0: the copy sits on exactly the same coordinates
     vec = [rng.choice([-1, 1]) * step for _ in range(3)]  # |vec| = 0.09 / 0.26 / 0.43 A: below the reader's 0.5 A
     copies = []
     for r in rows:
